@@ -616,7 +616,7 @@ func (in *Interp) bitAnd(st *State, a, b *Term) *Term {
 	panic(unsupported(fmt.Sprintf("bitwise AND of symbolic operands %s [%v,%v] & %s [%v,%v]", clip(a.String(), 120), a.Lo, a.Hi, clip(b.String(), 120), b.Lo, b.Hi)))
 }
 
-func (in *Interp) bitOr(a, b *Term) *Term {
+func (in *Interp) bitOr(st *State, a, b *Term) *Term {
 	ac, aok := a.ConstInt()
 	bc, bok := b.ConstInt()
 	if aok && bok {
@@ -641,6 +641,23 @@ func (in *Interp) bitOr(a, b *Term) *Term {
 	}
 	if r := try(b, a); r != nil {
 		return r
+	}
+	// solver-assisted: x is a multiple of 2^k and 0 <= y < 2^k on this path
+	if st != nil && !st.Spec && in.Cfg.Fixed == nil {
+		for _, pr := range [][2]*Term{{a, b}, {b, a}} {
+			x, y := pr[0], pr[1]
+			k := multipleOfPow2(x)
+			if k == 0 {
+				continue
+			}
+			if k > 62 {
+				k = 62
+			}
+			in.Res.BranchQ++
+			if in.Sol.CheckWith(Or(Lt(y, IntC(0)), Ge(y, BigC(pow2(k))))) == Unsat {
+				return Add(x, y)
+			}
+		}
 	}
 	panic(unsupported("bitwise OR of symbolic operands"))
 }
@@ -718,7 +735,7 @@ func (in *Interp) binop(st *State, fr *Frame, x *ssa.BinOp) Value {
 		case token.AND:
 			return in.wrap(st, in.bitAnd(st, at, btm), rt)
 		case token.OR:
-			return in.wrap(st, in.bitOr(at, btm), rt)
+			return in.wrap(st, in.bitOr(st, at, btm), rt)
 		case token.XOR:
 			ac, aok := at.ConstInt()
 			bc, bok := btm.ConstInt()
@@ -1619,6 +1636,13 @@ func (in *Interp) copyOp(st *State, args []Value) Value {
 		cur := in.getPath(st, st.Heap[d.Obj], extPath(d.Path, PathEl{Field: -1, Idx: idx}))
 		nv, ok := merge(g, pe.v, cur)
 		if !ok {
+			// elements that cannot be merged with ite (e.g. different concrete strings): fork on the lengths instead
+			if _, c := in.idxConst64(st, d.Len); !c {
+				in.concretize(st, d.Len, 0, 1<<16)
+			}
+			if _, c := in.idxConst64(st, n2t); !c {
+				in.concretize(st, n2t, 0, 1<<16)
+			}
 			panic(unsupported("copy with symbolic length of non-scalar elements"))
 		}
 		in.store(st, PtrV{Obj: d.Obj, Path: extPath(d.Path, PathEl{Field: -1, Idx: idx})}, nv)
